@@ -2,7 +2,7 @@ import GramModel.Lemmas.ArmsTie
 import GramModel.Lemmas.Print
 import GramModel.Lemmas.PrintDerives
 import GramModel.Lemmas.PrintLex
-import GramModel.Lemmas.ParsePrinted12
+import GramModel.Lemmas.ParsePrinted16
 
 /-!
 # C16 — printed terms read back as the same term (the printer side)
@@ -700,7 +700,9 @@ example : ∃ (toks : Array PModel.PTok) (t : Tm), PrintDerives.noImplicitArrow 
    by decide, by decide, by decide, by simp [Function.comp_def]⟩
 
 /-- The whole round trip (PENDING — the parse phase is `C16_parse_printed`, the applications pass on chains is
-`C16_printed_application_left_nested`; not proved: the three passes on the whole tree and name resolution.  Checked by
+`C16_printed_application_left_nested`; the applications pass on the whole tree is `C16_reassoc_applications_printed`, the other two passes on fully
+parenthesised trees `C16_chain_passes_identity`; not proved: the link between them (`C16_reassoc_printed_stmt`) and name
+resolution (`C16_resolve_printed_stmt`).  Checked by
 evaluation of the model on sample terms with binders, arrows, definition groups and operator chains.)  `PModel.readBack` =
 parse phase, the three re-association passes, `resolve_variables` in the scope `names` (outermost first), ranges forgotten;
 `PModel.scopedOK` = hole-free, every variable carries the de Bruijn index of its name in the scope, binder names are not the
@@ -715,3 +717,61 @@ def C16_read_back_stmt : Prop :=
     PrintDerives.noImplicitArrow t = true → PrintDerives.noNegLit t = true →
     toks.toList.map (·.kind) = (PrintDerives.printKinds nm t).map (PModel.kindP I) →
     PModel.readBack toks names = some (PModel.canon t, [])
+
+
+/-! ## Reading back: the re-association passes on the whole parsed tree (stages of `C16_read_back`)
+
+`PModel.lsrc I nm t` is the surface tree of `t` itself (applications left-nested; no ranges, no `group` flags, no errors;
+names `I (nm x)`, the placeholder for an unused Π binder, one nested `let` per definition). -/
+
+/-- **Stage A, first pass**: on every surface tree whose shape is the expected tree of the printed `t` (`srcOf I nm t`: any
+ranges) — in particular on what the parse phase returns for the printed tokens of a printable `t` —
+`reassociate_applications` succeeds and returns the tree of `t` itself up to ranges, `group` flags and error lists: every
+right-nested application chain, in every subterm, has become the left-nested application, nothing else has changed. -/
+def C16_reassoc_applications_printed_stmt : Prop :=
+  (∀ (I : List Char → Name) (nm : Name → List Char) (t : Tm) (s : PModel.Src),
+    PModel.shape s = PModel.srcOf I nm t →
+    ∃ s1, PModel.reassociateApplications s = some s1 ∧ RewriteMore.strip s1 = PModel.lsrc I nm t) ∧
+  (∀ (toks : Array PModel.PTok) (I : List Char → Name) (nm : Name → List Char) (t : Tm),
+    PrintDerives.noImplicitArrow t = true → PrintDerives.noNegLit t = true →
+    toks.toList.map (·.kind) = (PrintDerives.printKinds nm t).map (PModel.kindP I) →
+    ∃ r st s1, PModel.runParser toks = some (r, st) ∧ r.next = toks.size ∧ PModel.collectErrors r.term = [] ∧
+      PModel.reassociateApplications r.term = some s1 ∧ RewriteMore.strip s1 = PModel.lsrc I nm t)
+theorem C16_reassoc_applications_printed : C16_reassoc_applications_printed_stmt :=
+  ⟨PModel.reassoc_apps_shape, PModel.reassoc_apps_printed⟩
+
+/-- **Stage A, second and third pass (generic)**: on a fully parenthesised tree (`PModel.OK23`: no `ParseError` node; both
+operands of every binary-operator node carry `group = true` or are not binary-operator nodes — what the printer's `group`
+guarantees) a chain pass other than the applications pass succeeds, is the identity up to ranges, `group` flags and error
+lists, returns a fully parenthesised tree again and does not clear the root's `group` flag. -/
+def C16_chain_passes_identity_stmt : Prop :=
+  ∀ (fam : PModel.Family), fam ≠ .applications → ∀ s : PModel.Src, PModel.OK23 s →
+    ∃ s', PModel.reassoc fam none s = some s' ∧ RewriteMore.strip s' = RewriteMore.strip s ∧ PModel.OK23 s' ∧
+      (s.group = true → s'.group = true)
+theorem C16_chain_passes_identity : C16_chain_passes_identity_stmt := PModel.pass23
+
+/-- non-vacuity: `a * (b * c)` with the right operand flagged is fully parenthesised -/
+example : PModel.OK23 (.mk ⟨0, 9⟩ false (.bin .prod (.mk ⟨0, 1⟩ false (.var 1) [])
+    (.mk ⟨4, 9⟩ true (.bin .prod (.mk ⟨5, 6⟩ false (.var 2) []) (.mk ⟨8, 9⟩ false (.var 3) [])) [])) []) := by
+  simp [PModel.OK23, PModel.OK23V, PModel.At23, PModel.isBinV, PModel.Src.group, PModel.Src.variant]
+
+/-- Stage A, complete (PENDING: `C16_reassoc_applications_printed` and `C16_chain_passes_identity` are proved; the missing
+link is that the output of the applications pass on the parsed tree is fully parenthesised, `PModel.OK23`, which needs the
+chain theorem `C16_chain_left_nested` with the structure of the result and not only its `strip`): the three passes on the
+parsed tree of a printed term return the tree of the term itself. -/
+def C16_reassoc_printed_stmt : Prop :=
+  ∀ (toks : Array PModel.PTok) (I : List Char → Name) (nm : Name → List Char) (t : Tm),
+    PrintDerives.noImplicitArrow t = true → PrintDerives.noNegLit t = true →
+    toks.toList.map (·.kind) = (PrintDerives.printKinds nm t).map (PModel.kindP I) →
+    ∃ r st s3, PModel.runParser toks = some (r, st) ∧ RewriteMore.reassocAll r.term = some s3 ∧
+      RewriteMore.strip s3 = PModel.lsrc I nm t
+
+/-- Stage B (PENDING, not started: via `toDB` of Props/C08.lean and `C08_resolve_complete_fixed`): name resolution of any
+tree that is the tree of `t` up to ranges, flags and errors, in the scope `names`, returns `canon t` without error. -/
+def C16_resolve_printed_stmt : Prop :=
+  ∀ (I : List Char → Name) (nm : Name → List Char) (names : List Name) (t : Tm) (s : PModel.Src),
+    (∀ x, I (nm x) = x) → names.Nodup → (∀ x ∈ names, x ≠ PModel.placeholder) →
+    PModel.scopedOK names.reverse t = true → RewriteMore.strip s = PModel.lsrc I nm t →
+    ∃ rt st, PModel.resolve s (PModel.initialContext names).length
+        { ctx := PModel.initialContext names, errors := [], nextHole := 0 } = some (rt, st) ∧
+      rt.erase = PModel.canon t ∧ st.errors = []
